@@ -142,6 +142,36 @@ package godi
 //@        && (forall i int :: 0 <= i && i < len(pre) ==> p.disposables[i] == pre[i])
 //@   at before call p.singletonKeysMu.Unlock#1 : assert[C10,C14] key_tracked: len(p.singletonKeys) == len(prekeys) + 1 && p.singletonKeys[len(prekeys)] == key
 //
+//@ func provider.trackDisposable
+//@   mode conc
+//@   safety[C15,C09]
+//@   requires recv: p != nil
+//@   ghost pre []Disposable
+//@   at after call p.disposablesMu.Lock#1 : ghost pre := p.disposables
+//@   ensures[C10] tracked_once: ncalls("provider.disposablesMu.Lock") == 1 && ncalls("provider.singletons.Store") == 0
+//@   at before call p.disposablesMu.Unlock#1 : assert[C10,C11] appended_last: len(p.disposables) == len(pre) + 1 && p.disposables[len(pre)] == box(d)
+//@        && (forall i int :: 0 <= i && i < len(pre) ==> p.disposables[i] == pre[i])
+//
+//@ func scope.trackOnly
+//@   mode conc
+//@   interferes
+//@   nopanic
+//@   safety[C15,C13,C09]
+//@   requires recv: s != nil && s.rootProvider != nil
+//@   ghost pre []Disposable
+//@   ghost wasLate bool
+//@   at after call s.disposablesMu.Lock#1 : ghost pre := s.disposables
+//@   at before call s.disposablesMu.Unlock#1 : ghost wasLate := late
+//@   ensures[C10] not_disposable_untracked: !typeis(instance, "Disposable") ==> ncalls("scope.disposablesMu.Lock") == 0 && ncalls("provider.trackDisposable") == 0 && ncalls("closeLate") == 0
+//@   ensures[C10] singleton_output_owned_by_provider: typeis(instance, "Disposable") && lifetime == Singleton ==> ncalls("provider.trackDisposable") == 1 && callarg("provider.trackDisposable", 0, 0) == old(s.rootProvider)
+//@        && box(callarg("provider.trackDisposable", 0, 1)) == instance && ncalls("scope.disposablesMu.Lock") == 0
+//@   ensures[C10] other_output_owned_by_scope: typeis(instance, "Disposable") && lifetime != Singleton ==> ncalls("provider.trackDisposable") == 0 && ncalls("scope.disposablesMu.Lock") == 1
+//@        && ncalls("closeLate") == ite(wasLate, 1, 0) && (wasLate ==> callarg("closeLate", 0, 0) == instance)
+//@   ensures[C01,C02] stores_nothing: ncalls("scope.instancesMu.Lock") == 0 && ncalls("provider.setSingleton") == 0 && ncalls("provider.cacheSingleton") == 0
+//@   at before call s.disposablesMu.Unlock#1 : assert[C10,C11] appended_last: !late ==> len(s.disposables) == len(pre) + 1 && s.disposables[len(pre)] == instance
+//@        && (forall i int :: 0 <= i && i < len(pre) ==> s.disposables[i] == pre[i])
+//@   at before call s.disposablesMu.Unlock#1 : assert[C10] drained_list_left_alone: late ==> isnil(s.disposables) && isnil(pre) && s.disposed != 0
+//
 //@ func provider.cacheSingleton
 //@   mode conc
 //@   safety[C15,C09]
@@ -372,6 +402,7 @@ package godi
 //@        (exists c int :: 0 <= c && c < ncalls("scope.setInstance") && callarg("scope.setInstance", c, 3) == ext("(reflect.Value).Interface", "any", results[info.Returns[j].Index]))
 //@   at before return#14 : assert[C10] unstored_outputs_are_still_owned: forall j int :: 0 <= j && j < len(info.Returns) && !info.Returns[j].IsError ==>
 //@        (exists c int :: 0 <= c && c < ncalls("scope.setInstance") && callarg("scope.setInstance", c, 3) == ext("(reflect.Value).Interface", "any", results[info.Returns[j].Index]))
+//@        || (exists c int :: 0 <= c && c < ncalls("scope.trackOnly") && callarg("scope.trackOnly", c, 0) == s && callarg("scope.trackOnly", c, 2) == ext("(reflect.Value).Interface", "any", results[info.Returns[j].Index]))
 //@   at before return#15 : assert[C15] nil_result_stores_nothing: ncalls("scope.setInstance") == 0 && ncalls("scope.setAliasedInstance") == 0
 //@   at before return#16 : assert[C01,C02,C03,C10] single_output_stored_once: ncalls("scope.setInstance") == 0 && ncalls("scope.setAliasedInstance") == 1 && callarg("scope.setAliasedInstance", 0, 0) == s
 //@        && callarg("scope.setAliasedInstance", 0, 1) == descriptor && callarg("scope.setAliasedInstance", 0, 2) == instance && instance != nil
@@ -387,6 +418,9 @@ package godi
 //@     invariant stored_so_far: forall j int :: 0 <= j && j < idx && !info.Returns[j].IsError && pure("Descriptor.outputForReturn", descriptor, info.Returns[j].Index) != nil && !outputSkipped(s.rootProvider, descriptor, pure("Descriptor.outputForReturn", descriptor, info.Returns[j].Index)) ==>
 //@        (exists c int :: 0 <= c && c < ncalls("scope.setInstance") && callarg("scope.setInstance", c, 3) == ext("(reflect.Value).Interface", "any", results[info.Returns[j].Index]))
 //@     invariant only_registered_outputs_stored: forall c int :: 0 <= c && c < ncalls("scope.setInstance") ==> !outputSkipped(s.rootProvider, descriptor, callarg("scope.setInstance", c, 1, "*Descriptor"))
+//@     invariant unstored_outputs_are_still_owned: forall j int :: 0 <= j && j < idx && !info.Returns[j].IsError ==>
+//@        (exists c int :: 0 <= c && c < ncalls("scope.setInstance") && callarg("scope.setInstance", c, 3) == ext("(reflect.Value).Interface", "any", results[info.Returns[j].Index]))
+//@        || (exists c int :: 0 <= c && c < ncalls("scope.trackOnly") && callarg("scope.trackOnly", c, 0) == s && callarg("scope.trackOnly", c, 2) == ext("(reflect.Value).Interface", "any", results[info.Returns[j].Index]))
 //
 // ---------------------------------------------------------------------------------------------
 // Entry points: a disposed scope / provider refuses work (C13), arguments are validated (C15).
